@@ -91,7 +91,7 @@ def gen_update_opts(rng, info, prior_kind, allow_sub=True, api=None):
 
 def gen_history(rng, cfg=None):
     cfg = cfg or {}
-    g = GT.gen_tree(rng, dict({'top': 'Manifest', 'p_conflict': 0.0, 'p_dup': 0.2,
+    g = GT.gen_tree(rng, dict({'top': 'Manifest', 'p_conflict': 0.0, 'p_dup': 0.3,
                                'p_multi': cfg.get('p_multi', 0.15)}, **cfg.get('tree', {})))
     info = g['info']
     prior = rng.choice(['absent', 'exact', 'stale', 'stale', 'stale', 'stale'])
@@ -106,7 +106,7 @@ def gen_history(rng, cfg=None):
         # partially refreshed prior state: after the edits some Manifests are
         # rewritten with current values while others stay stale (e.g. a file listed
         # in parent and child where only one of the two entries is stale)
-        if prior == 'stale' and manifests and rng.random() < 0.35:
+        if prior == 'stale' and manifests and rng.random() < 0.5:
             ms = list(manifests)
             rng.shuffle(ms)
             for m in ms[:rng.choice([1, 1, 2])]:
